@@ -60,7 +60,8 @@ OffsetFailed(e) ==
       want == IF inb THEN [st |-> "ok", k |-> ToInt(k)] ELSE [st |-> "EOFError", k |-> 0]
   IN IF amb THEN {"ambiguous"}
      ELSE (IF [st |-> e.got.st, k |-> e.got.k] # want THEN {"nearest"} ELSE {})
-          \cup (IF e.pert = 0 /\ (e.got.st # "ok" \/ e.got.k # e.k) THEN {"roundtrip"} ELSE {})
+          \cup (IF e.pert = 0 /\ e.k >= 0 /\ e.k <= e.len /\ (e.got.st # "ok" \/ e.got.k # e.k)
+                THEN {"roundtrip"} ELSE {})
 
 (* ---- metadata ---- *)
 RelClose(a, b) == RLe(RAbs(RSub(a, b)), RMul(RAbs(b), RPow2(-50)))
